@@ -174,6 +174,32 @@ def _impl(tier, seed, search):
             # plane membership of the point it was built from
             ok2, c = L.noraise('Plane.contains', lambda: plane.contains(p0, tol=1e-9 * max(1.0, float(np.max(np.abs(p0))))), pinp, 'Plane.PN(p, n).contains(p)')
             if ok2: L.check('Plane.contains', bool(c), pinp, 'a plane built from a point and a normal does not contain that point', sig='Plane.PN:contains')
+        # small defining data: a line through two points ~1e-3 apart and a plane through a millimetre-sized triangle, clearly not parallel
+        if i % 6 == 1:
+            Ps = pt(g) / 100; us = inputs.unit_axis(g); Qs = Ps + us * 10.0 ** g.uniform(-3, -2)
+            c0 = pt(g) / 100; e1 = np.cross(us, inputs.unit_axis(g) + 0.3 * us)
+            if np.linalg.norm(e1) > 0.2:
+                e1 = e1 / np.linalg.norm(e1); e2 = np.cross(us, e1) + 0.5 * e1          # plane spanned by e1, e2: its normal is within ~30 deg of the line direction
+                hsz = 10.0 ** g.uniform(-3, -2)
+                tri_s = np.stack([c0, c0 + hsz * e1, c0 + hsz * e2], axis=1)
+                sinp = dict(P=Ps, Q=Qs, triangle=tri_s)
+                ok2, c = L.noraise('intersect_plane(small)', lambda: Plucker.PQ(Ps, Qs).intersect_plane(Plane.P3(tri_s)), sinp, 'intersect_plane with small defining data', sig='intersect_plane(small):raises')
+                if ok2 and c is None: L.check('intersect_plane(small)', False, sinp, 'no intersection reported for a plane clearly not parallel to the line (small defining data)', sig='intersect_plane:none')
+                elif ok2:
+                    ip = np.asarray(c.p, float); nrm_ = np.cross(e1, e2); nrm_ = nrm_ / np.linalg.norm(nrm_)
+                    ssc = max(1.0, float(np.max(np.abs(np.r_[Ps, c0]))))
+                    L.close('intersect_plane(small):on-plane', float(np.dot(nrm_, ip - c0)), 0.0, 1e-6, ssc, sinp, sig='intersect_plane(small)')
+                    L.close('intersect_plane(small):on-line', dist_to_line(ip, Ps, us), 0.0, 1e-6, ssc, sinp, sig='intersect_plane(small)')
+        # a plane through a small triangle far from the origin contains its three points (relative to the data magnitude)
+        if i % 6 == 2:
+            ctr = pt(g); ctr = ctr / max(1e-9, float(np.max(np.abs(ctr)))) * 10.0 ** g.uniform(1, 3)
+            tri_f = np.stack([ctr + g.normal(size=3) * 10.0 ** g.uniform(-3, -1) for _ in range(3)], axis=1)
+            if np.linalg.norm(np.cross(tri_f[:, 1] - tri_f[:, 0], tri_f[:, 2] - tri_f[:, 0])) > 0.05 * np.linalg.norm(tri_f[:, 1] - tri_f[:, 0]) * np.linalg.norm(tri_f[:, 2] - tri_f[:, 0]):
+                ok2, plf = L.noraise('Plane.P3(far)', lambda: Plane.P3(tri_f), dict(points=tri_f), 'Plane.P3 of a small triangle far from the origin', sig='Plane.P3:raises')
+                if ok2:
+                    nf = np.asarray(plf.n, float); df = float(plf.d); mag_ = float(np.max(np.abs(tri_f)))
+                    res_ = [abs(float(np.dot(nf, tri_f[:, k_])) + df) / float(np.linalg.norm(nf)) for k_ in range(3)]
+                    L.close('Plane.P3(far):contains', res_, [0.0, 0.0, 0.0], 1e-9, mag_, dict(points=tri_f), what='a plane through three points (small triangle far from the origin) does not contain them', sig='Plane.P3:contains')
         if i % 10 == 0:
             tri = np.stack([pt(g) / 10, pt(g) / 10, pt(g) / 10], axis=1)
             ok2, pl3 = L.noraise('Plane.P3', lambda: Plane.P3(tri), dict(points=tri), 'Plane.P3(three points)', sig='Plane.P3:raises')
